@@ -142,6 +142,8 @@ def solve_one(idx):
                 done = True; break
         if not done:
             done = attempt(levels[-1], RLIMIT_1, "z3", want_model=True)
+        if not done and z3.is_false(ob["goal"]):
+            done = True       # a structurally false goal (e.g. trace shape mismatch) on a path the solver cannot refute: no point in the rest of the ladder
         if not done:
             out = cvc5_check(last.to_smt2(), CVC5_S)
             trail.append(("cvc5", out, None))
@@ -155,7 +157,8 @@ def solve_one(idx):
             done = attempt(levels[-1], RLIMIT_2, "z3-seed7", seed=7, want_model=True)
         res["trail"] = trail
     except Exception as e:      # noqa
-        res.update(verdict="error", reason=f"{type(e).__name__}: {e}")
+        import traceback
+        res.update(verdict="error", reason=f"{type(e).__name__}: {e} | " + traceback.format_exc()[-900:].replace("\n", " / "))
     res["time"] = round(time.time() - t0, 3)
     return res
 
